@@ -383,3 +383,8 @@ def run(chk, repo):
     from rules.shared import kwname
     chk.clauses.append('C16.kw (shared R-THREAD) parameters handed on as keyword arguments keep their name: no `a=b` between two parameters of one function')
     kwname(chk, repo, 'C16.kw', ['parser.RMATSParser', 'cli.parse_rmats'], floor=0)
+    from rules.shared import truthy_numeric
+    chk.clauses.append('C16.j (shared R-TRUTHY) no numeric parameter (reading frame, index, offset: 0 is a value) is tested by truthiness instead of `is None`')
+    truthy_numeric(chk, repo, 'C16.j', ['seqvar', 'parser'])
+
+
